@@ -182,6 +182,49 @@ theorem page_og_gate (lower : String → String) (P : OG.Prefixes) (root : Node)
 theorem og_last_value_wins (s : OG.St) (k v : String) : (s.set k v).get k = v := by
   simp [OG.St.get, OG.St.set, List.lookup]
 
+/-- **The article gate looks again at every tag**: an `article:*` tag (other than `author`) that
+comes when the table holds `og:type = article` sets its field — whether or not earlier `article:*`
+tags, met before the type, were dropped (`s.isArticle` is arbitrary here). A parser that decides once,
+at the first `article:*` tag, does not satisfy this. -/
+theorem article_tag_after_type_counts (lower : String → String) (P : OG.Prefixes) (content property : String)
+    (s : OG.St) (ip : OG.Important) (hip : ip.type = "article")
+    (hpre : OG.hasPrefix property (P.get ip.pfx ++ ":" ++ ip.name) = true)
+    (hty : lower (s.get "type") = "article")
+    (hna : OG.dropPrefix property (P.get ip.pfx ++ ":") ≠ "author") :
+    let r := (OG.stepImportant lower P content (s, property) ip).1
+    r.get ip.name = content ∧ r.isArticle = true := by
+  have hget : ∀ (b : Bool) , ({ s with isArticle := b } : OG.St).get "type" = s.get "type" := fun _ => rfl
+  have h1 : (ip.type == "image") = false := by rw [hip]; decide
+  have h2 : (ip.type == "profile") = false := by rw [hip]; decide
+  have h3 : (ip.type == "article") = true := by rw [hip]; decide
+  have h4 : (OG.dropPrefix property (P.get ip.pfx ++ ":") == "author") = false := by
+    rw [beq_eq_false_iff_ne]; exact hna
+  simp only [OG.stepImportant, hpre, h1, h2, h3, h4, hty, Bool.not_true, Bool.false_eq_true, if_false, if_true,
+    beq_self_eq_true]
+  rcases Bool.eq_false_or_eq_true s.isArticle with h | h <;>
+    simp [h, OG.St.get, OG.St.set, List.lookup]
+
+/-- … and one that comes while the table holds no `article` type is dropped: table and authors stay -/
+theorem article_tag_before_type_dropped (lower : String → String) (P : OG.Prefixes) (content property : String)
+    (s : OG.St) (ip : OG.Important) (hip : ip.type = "article") (hs : s.isArticle = false)
+    (hty : lower (s.get "type") ≠ "article") :
+    let r := (OG.stepImportant lower P content (s, property) ip).1
+    r.table = s.table ∧ r.authors = s.authors ∧ r.isArticle = false := by
+  have h1 : (ip.type == "image") = false := by rw [hip]; decide
+  have h2 : (ip.type == "profile") = false := by rw [hip]; decide
+  have h3 : (ip.type == "article") = true := by rw [hip]; decide
+  have h5 : (lower (s.get "type") == "article") = false := by rw [beq_eq_false_iff_ne]; exact hty
+  simp only [OG.stepImportant]
+  split
+  · exact ⟨rfl, rfl, hs⟩
+  · simp [h1, h2, h3, hs, h5]
+
+/-- the premises are met by an ordinary page: `og:type = article` in the table, then `article:section` -/
+example : (OG.stepImportant id {} "politics" (({} : OG.St).set "type" "article", "article:section")
+    ⟨"section", .article, "article"⟩).1.get "section" = "politics" :=
+  (article_tag_after_type_counts id {} "politics" "article:section" _ ⟨"section", .article, "article"⟩ rfl
+    (by decide) (by decide) (by decide)).1
+
 /-- the OpenGraph accessor never opts out and never provides a copyright -/
 theorem og_no_optout (lower : String → String) (p : OG.Parsed) :
     (OG.source lower p).optOut = false ∧ (OG.source lower p).copyright = "" := ⟨rfl, rfl⟩
